@@ -8,7 +8,7 @@ GENERATORS = ['gen_font']     # Model/AnsiTok.v loads `CTerm:Font:` strings with
 COQ_TARGETS = ['Props/C01.vo', 'Run/RunC09.vo', 'Run/RunC01.vo']
 PROPS_MODULE = 'Props.C01'
 THEOREMS = ['c01_standalone', 'c01_ansi_char_partial', 'c01_stream_partial', 'c01_ansi_stream_partial', 'core_ops_never_panic',
-            'c01_ansi_char', 'c01_wrappers', 'c01_wrappers_no_panic', 'c01_wrappers_state', 'c01_petscii', 'c01_no_emulation_panics']
+            'c01_ansi_char', 'c01_wrappers', 'c01_wrappers_no_panic', 'c01_wrappers_state', 'c01_petscii', 'c01_no_emulation_panics', 'macro_bound_is_only_a_bound']
 SWEEP_LEMMAS = []
 TRUSTED = ['Coq 8.16.1 kernel + vm_compute; no axioms (Print Assumptions: closed)',
            'hand-written models Model/TermCore.v, AnsiTok.v, Emu.v (shared with C09) and Model/Petscii.v, tied to the Rust source by differential runs: outcome class of every character, final geometry; '
@@ -429,7 +429,7 @@ LEVEL_TEXT = ('Machine-checked (Coq, closed under the global context) for ALL TE
               'and then the character at which it stops was processed with a macro stored; it NEVER panics, with no side condition on text-area resizes or stored macros: the proof runs on a weak invariant W '
               '(sizes >= 1, origin mode never WithinMargins, margins 0 <= a <= b, tab stops >= 0, cursor coordinates >= 0) that survives CSI 8;h;w t and is kept by macro replay (induction on the nesting bound); '
               '(d) c01_ansi_char: one character of ansi::Parser::print_char in EVERY EngineState, any macro table, any nesting bound, on any W state: action or error value on a W state; '
-              'c01_no_emulation_panics puts (a)-(c) into one statement; core_ops_never_panic and the earlier *_partial theorems are kept. '
+              'macro_bound_is_only_a_bound: an outcome that is not the nesting overflow is the same for every larger bound (the bound of the model is not a semantic limit); c01_no_emulation_panics puts (a)-(c) into one statement; core_ops_never_panic and the earlier *_partial theorems are kept. '
               'One class stays a known finding: unbounded macro recursion (stack overflow; model: Diverge beyond MACRO_FUEL = 32) - the theorems show it is the only failure left. '
               'Nine fix: commits remove the panics of the ledger (OSC 8, OSC 4, margin validation, SL/SR, music index, music arithmetic, cursor-motion overflow; DECFRA fill character by C10, BitFont loaders by C17).')
 LEVEL_NOTE = ('Trusted: Coq kernel + vm_compute; hand models tied to the Rust code by per-stream outcome comparison and per-character state comparison (stage C; via C09 for resize-free streams, '
